@@ -371,6 +371,8 @@ def json_oracle(case, out):
     c = case["content"]
     if out[0] == "EXC":
         return "exception type %s (neither SkipComponent nor ParseException)" % out[1], None
+    if case.get("value") is not None and not (out[0] == "DATA" and canon(out[1]) == case["value"]):
+        return "the document was rendered from a value the parser did not return (blank lines between tokens): %s" % doc_canon(out)[:60], None
     if isinstance(c, str):
         if not c:
             return (None if out[0] == "SKIP" else "empty document did not signal a skip"), None
@@ -490,6 +492,82 @@ def gen_json_typed_case(rng):
     return {"op": "json", "content": lines, "noise": 0, "intent": "typed"}
 
 
+# ---- documents in which blank / whitespace-only LINES are content: literal and folded block scalars, multi-line
+# quoted and plain scalars, blank lines and comments between entries.  Values carry strings with "\n", "\n\n",
+# trailing newlines, lines of spaces, leading / trailing spaces; rendered by yaml.safe_dump in every scalar style
+# and several widths, plus hand-written block forms; split into lines as the parser receives them.
+STR_PIECES = ["a", "x y", " lead", "trail ", "  ", "", "", "note this", "Warning: w", "# not a comment", "k: v", "- item",
+              "日本", "tab\there", "long " * 6 + "end", "'q' \"d\"", "   deep indent", "...", "---"]
+BLOCK_FORMS = ["a: |\n  line1\n\n  line3\n", "a: |-\n  x\n\n\n", "a: |+\n  x\n\n\nb: 1", "a: >\n  folded\n  text\n\n  next para\n",
+               "a: >-\n  x\n\n  y\n\n", "- |\n  x\n  \n  y", "a: \"first\n\n  second\"\n", "a: 'it''s\n\n  two'\n",
+               "a: |2\n    indented\n\n  less\n", "k:\n  - >+\n    p\n\n  - z", "# comment\n\na: 1\n\n# c2\nb:\n\n  - 1\n\n  - 2\n",
+               "a: |\n  x\n  # not a comment\n\n   \nb: 2", "---\n\na: |\n\n  x\n...\n", "a: plain\n  continued\n\n  after blank",
+               "a: |\n\n\n  x\n\n", "a: >\n\n  x\n   more indented\n\n  y\n", "- \"a\\\n  \n  b\"", "a: |+\n\nb: |-\n\nc: |\n\n",
+               "a: |\n  note this\n\n  Warning: w\nb: 1", "a:\n  b: >\n    WARNING: folded\n\n    x\n  c: |\n    \n    y\n",
+               "a: 'x\n  \n  \n  y'", "? |\n  key\n\n  two\n: v", "a: [1,\n\n  2,\n   \n  3]", "{a: 1,\n\n b: \"x\n\n y\"}"]
+BLANKS = ["", "", "   ", "\t", " \t "]
+
+
+def gen_blank_string(rng):
+    s = "\n".join(rng.choice(STR_PIECES) for _ in range(rng.randint(1, 5)))
+    r = rng.random()
+    return s + ("\n" if r < 0.25 else "\n\n" if r < 0.4 else "")
+
+
+def gen_blank_value(rng):
+    s = [gen_blank_string(rng) for _ in range(3)]
+    return rng.choice([{"k": s[0]}, [s[0], s[1]], {"a": {"b": [s[0], 1]}}, {"a": s[0], "b": 1, "c": s[1]}, [[s[0]], {"x": s[1]}],
+                       {"items": [{"name": s[0], "id": 1}, {"name": s[1], "id": 2}]}, [s[0]], {s[2][:12]: s[0]}])
+
+
+def yaml_remaining(lines, prefixes):
+    """the documented pre-processing, written independently: remove exactly the lines whose text after leading
+    white space starts (case-insensitively) with one of the prefixes; keep every other line, blank ones included"""
+    return [l for l in lines if not (prefixes and l.lstrip().lower().startswith(tuple(prefixes)))]
+
+
+def gen_yaml_blank_case(rng):
+    value = None
+    if rng.random() < 0.7:
+        v = gen_blank_value(rng)
+        text = yaml.safe_dump(v, default_style=rng.choice([None, None, "|", ">", '"', "'"]), width=rng.choice([10, 20, 80, 1000]),
+                              default_flow_style=rng.choice([False, False, None]), indent=rng.choice([2, 4]),
+                              allow_unicode=rng.random() < 0.7)
+        value = canon(v)
+    else:
+        text = rng.choice(BLOCK_FORMS)
+    if rng.random() < 0.3:
+        return {"op": "yaml", "str": True, "ign": False, "base": text, "content": text, "intent": "blank-str", "value": value}
+    lines = text.split("\n") if rng.random() < 0.7 else text.splitlines()
+    if value is not None and "\n".join(lines) != text:
+        value = None            # splitlines() dropped a final empty line: the joined text is another document
+    r = rng.random()
+    if r < 0.35:                # comments / blank lines / ignorable lines around and inside: the reference follows the text
+        value = None
+        for _ in range(rng.randint(1, 3)):
+            lines.insert(rng.randint(0, len(lines)), rng.choice(BLANKS + ["# comment", "  # indented comment"] + IGNORABLE))
+    ign = rng.random() < 0.5
+    base = yaml_remaining(lines, IgnYaml.ignore_lines if ign else ())
+    if len(base) != len(lines):
+        value = None            # a content line matches a prefix: the reference is the load of the remaining lines
+    return {"op": "yaml", "ign": ign, "base": base, "content": lines, "intent": "blank", "value": value}
+
+
+def gen_json_blank_case(rng):
+    v = gen_container(rng) if rng.random() < 0.5 else gen_blank_value(rng)
+    text = json.dumps(v, indent=rng.choice([1, 2, 4]), ensure_ascii=rng.random() < 0.5)
+    doc = text.split("\n")
+    for _ in range(rng.randint(1, 4)):
+        doc.insert(rng.randint(1, len(doc)), rng.choice(BLANKS))
+    if rng.random() < 0.25:
+        t = "\n".join(doc)
+        return {"op": "json", "content": t, "noise": 0, "intent": "blank-str", "value": canon(v)}
+    noise = []
+    if rng.random() < 0.4:
+        noise = [rng.choice(BLANKS + ["Loading plugins...", "WARNING: running as root", "--- output ---"]) for _ in range(rng.randint(1, 3))]
+    return {"op": "json", "content": noise + doc, "noise": len(noise), "intent": "noise+doc" if noise else "blank", "value": canon(v)}
+
+
 def gen_yaml_case(rng):
     r = rng.random()
     ign = rng.random() < 0.4
@@ -526,6 +604,9 @@ def yaml_oracle(case, out):
         return "exception type %s (neither SkipComponent nor ParseException)" % out[1]
     # with ignore_lines the inserted lines are dropped: the document is `base`
     want = lib_yaml(case["base"] if isinstance(case["base"], str) else "\n".join(case["base"]))
+    if case.get("value") is not None and want[1] == case["value"] and not (out[0] == "DATA" and canon(out[1]) == case["value"]):
+        # rendered from a generated value, no line matches an ignore prefix, the library round-trips it
+        return "data differs from the value the document was rendered from (blank lines are content): %s" % doc_canon(out)[:80]
     if want[0] == "N":
         return None if out[0] == "SKIP" else "empty/null document did not signal a skip"
     if want[0] in "MQ":
@@ -1072,6 +1153,21 @@ def run(chk):
     def doc_tag(prefix):
         def f(case, out):
             tags = ["%s:%s" % (prefix, out[0]), "%s:intent=%s" % (prefix, case.get("intent", "ign" if case.get("ign") else "plain"))]
+            if prefix == "yaml" and case.get("intent", "").startswith("blank"):
+                b = case["base"]
+                text = b if isinstance(b, str) else "\n".join(b)
+                blank_inside = (not isinstance(b, str)) and any(not l.strip() for l in b[:-1])
+                tags.append("yaml:blank:blank-lines-in-document=%s" % ("str" if isinstance(b, str) else blank_inside))
+                if not isinstance(b, str):
+                    tags.append("yaml:blank:lines-removed-by-prefix=%d" % min(len(case["content"]) - len(b), 3))
+                ref = lib_yaml(text)
+                try:
+                    pure = (kind_of(yaml.safe_load(text)), canon(yaml.safe_load(text)))
+                except BaseException:  # noqa
+                    pure = ("F", "")
+                tags.append("yaml:blank:safe_load-vs-insights-loader=%s" % ("same" if pure == ref else "DIFFER"))
+                if case.get("value") is not None:
+                    tags.append("yaml:blank:library-round-trips-generated-value=%s" % (ref[1] == case["value"]))
             if case.get("intent", "").startswith("typed"):
                 c = case["content"] if prefix == "json" else case["base"]
                 lib = (lib_json if prefix == "json" else lib_yaml)(c if isinstance(c, str) else "\n".join(c))
@@ -1093,6 +1189,7 @@ def run(chk):
     cases.append({"op": "json", "content": ["[" * 100000], "noise": 0, "intent": "deep"})
     cases.append({"op": "json", "content": "[" * 100000, "noise": 0, "intent": "deep"})
     cases += [gen_json_typed_case(rng) for _ in range(400 * mult)]
+    cases += [gen_json_blank_case(rng) for _ in range(500 * mult)]
     for c in cases:
         chk.case(("json", json.dumps(c, sort_keys=True)), bool(c["content"]))
     run_stream(chk, "json", cases, doc_tag("json"))
@@ -1101,6 +1198,7 @@ def run(chk):
     # ---- 5. YAML
     cases = [gen_yaml_case(rng) for _ in range(1500 * mult)]
     cases += [gen_yaml_typed_case(rng) for _ in range(1500 * mult)]
+    cases += [gen_yaml_blank_case(rng) for _ in range(2000 * mult)]
     for _ in range(150 * mult):     # ordinary documents as str content
         c = gen_yaml_case(rng)
         t = "\n".join(c["base"])
